@@ -309,10 +309,10 @@ func targetedMalformed() [][]byte {
 	for _, d := range []int{-2, -1, 1, 2} {
 		add(fmt.Sprintf("*1\r\n$%d\r\nPING\r\n", 4+d))
 	}
-	add("*2\r\n$4\r\nPING\r\n")          // array longer than supplied
-	add("*0\r\n$4\r\nPING\r\n")          // array shorter than supplied
-	add("*1\r\n$4\r\nPING\n")            // LF without CR
-	add("*1\r\n$4\r\nPING\r")            // CR without LF
+	add("*2\r\n$4\r\nPING\r\n")           // array longer than supplied
+	add("*0\r\n$4\r\nPING\r\n")           // array shorter than supplied
+	add("*1\r\n$4\r\nPING\n")             // LF without CR
+	add("*1\r\n$4\r\nPING\r")             // CR without LF
 	add("\n")                             // bare LF
 	add("*1\n$4\nPING\n")                 // bare LFs
 	add("*-2\r\n")                        // negative array length
@@ -326,9 +326,14 @@ func targetedMalformed() [][]byte {
 	add("*\r\n")
 	add("$\r\n")
 	add("*1\r\n*1\r\n$4\r\nPING\r\n") // nested array
-	add("*1\r\n+PING\r\n")           // simple string inside array
+	add("*1\r\n+PING\r\n")            // simple string inside array
 	add("*1\r\n:1\r\n")
-	add("PING\r\n") // inline command
+	add("*1\r\nPING\r\n")                      // untyped text where a bulk is expected
+	add("*2\r\n$3\r\nGET\r\nfoo\r\n")          // ... after a proper first argument
+	add("*2\r\nGET\r\n$3\r\nfoo\r\n")          // ... before a proper second argument
+	add("*2\r\n$3\r\nGET\r\n\r\n")             // empty line where a bulk is expected
+	add("*3\r\n$3\r\nSET\r\n$1\r\nk\r\nv\r\n") // ... as the last argument
+	add("PING\r\n")                            // inline command
 	add("\r\n")
 	add("*1\r\n$4\r\nPI")
 	return out
